@@ -38,8 +38,9 @@
 (***************************************************************************)
 EXTENDS Integers, Sequences, FiniteSets, TLC, Json, IOUtils
 
-CONSTANTS Tier,            \* "quick" | "thorough": the family of bounded instances
-          Shard, NShards   \* this run enumerates the family entries i with i % NShards = Shard
+CONSTANTS Tier,     \* "quick" | "thorough": the family of bounded instances
+          Units     \* this run enumerates the units 10 * i + m of the family: the histories of
+                    \* exactly m points of entry i (the checks cut the family into balanced slices)
 
 NaN == 1000        \* recorded, not a number
 INF == 1000000     \* +infinity (violation measure of a NaN constraint; the code's initial f_opt)
@@ -171,14 +172,14 @@ Verdict(c, h, r) ==
                ELSE IF ~AccInfeasibleCase(c, h, r) THEN "MinViolation"
                ELSE "ok")
 
-\* why a MinViolation failure happened: the reported point is minimal only under the reading that
-\* stops counting at the first constraint that is not recorded
-Why(c, h, r) ==
-    IF Verdict(c, h, r) = "MinViolation"
+\* why a failure v = Verdict(c,h,r) happened: a MinViolation failure where the reported point is
+\* minimal only under the reading that stops counting at the first constraint that is not recorded
+Why(c, h, r, v) ==
+    IF v = "MinViolation"
     THEN (IF MinimalUnder(LAMBDA p : CodeViol(c, p, 1, 0, TRUE), h, r.idx)
           THEN "minimal_only_if_recorded_violation_after_missing_constraint_is_ignored"
           ELSE "not_minimal")
-    ELSE IF Verdict(c, h, r) = "RecordedPoint" /\ r.idx = 0 THEN "empty_design_point"
+    ELSE IF v = "RecordedPoint" /\ r.idx = 0 THEN "empty_design_point"
     ELSE "-"
 
 -----------------------------------------------------------------------------
@@ -193,12 +194,11 @@ AsSolution(c, res) == [idx |-> res.idx, feas |-> res.feas, f |-> Standardised(c,
                        c |-> res.c, g |-> res.g]
 ResultVerdict(c, h, res) ==
     IF ~res.built THEN "ResultBuilt"
-    ELSE IF res.idx \in 1..Len(h) /\ res.f # <<>> /\ res.f[1] # 0 /\ res.f[1] # NaN
-            /\ Standardised(c, res.f) # h[res.idx].f /\ Neg(Standardised(c, res.f)) = h[res.idx].f
-         THEN "ObjectiveSign"
-    ELSE IF Verdict(c, h, AsSolution(c, res)) # "ok" THEN Verdict(c, h, AsSolution(c, res))
-    ELSE IF res.oi # res.idx - 1 THEN "OptimumIndex"
-    ELSE "ok"
+    ELSE LET v == Verdict(c, h, AsSolution(c, res))
+         IN IF v = "ObjectiveOfThatPoint" /\ Neg(Standardised(c, res.f)) = h[res.idx].f THEN "ObjectiveSign"
+            ELSE IF v # "ok" THEN v
+            ELSE IF res.oi # res.idx - 1 THEN "OptimumIndex"
+            ELSE "ok"
 ResultAcceptable(c, h, res) == /\ res.built
                                /\ Acceptable(c, h, AsSolution(c, res))
                                /\ res.oi = res.idx - 1
@@ -274,23 +274,23 @@ QuickFamily == <<
   E(<<I0>>, 1, 0, FALSE, TRUE,  FALSE, "none", 2, "mid",  "rich"),
   E(<<E0>>, 0, 1, TRUE,  FALSE, TRUE,  "none", 2, "mid",  "rich"),
   \* one constraint, 3 points
-  E(<<I1>>, 1, 0, FALSE, TRUE,  FALSE, "alt",  3, "four", "mid"),
+  E(<<I1>>, 1, 0, FALSE, TRUE,  FALSE, "alt",  3, "tiny", "mid"),
   E(<<E1>>, 0, 1, FALSE, TRUE,  FALSE, "all",  3, "tiny", "mid"),
-  E(<<I2>>, 0, 0, TRUE,  FALSE, TRUE,  "all",  3, "tiny", "tiny"),
+  E(<<I2>>, 0, 0, TRUE,  FALSE, TRUE,  "all",  3, "two",  "mid"),
   E(<<E2>>, 1, 1, FALSE, FALSE, FALSE, "alt",  3, "two",  "mid"),
   \* two constraints, both orders of the types, <= 2 points
   E(<<I1, E1>>, 0, 0, FALSE, TRUE,  FALSE, "alt",  2, "four", "tiny"),
   E(<<I1, E1>>, 1, 0, TRUE,  FALSE, TRUE,  "all",  2, "tiny", "mid"),
   E(<<E1, I1>>, 0, 1, FALSE, TRUE,  FALSE, "all",  2, "four", "tiny"),
-  E(<<E1, I1>>, 1, 1, TRUE,  TRUE,  FALSE, "none", 2, "tiny", "mid"),
+  E(<<E1, I1>>, 1, 1, TRUE,  TRUE,  FALSE, "none", 2, "tiny", "tiny"),
   E(<<I1, I0>>, 1, 0, FALSE, TRUE,  TRUE,  "alt",  2, "four", "tiny"),
   E(<<E0, E1>>, 0, 1, FALSE, FALSE, FALSE, "all",  2, "tiny", "tiny"),
-  E(<<I2, E1>>, 1, 1, FALSE, TRUE,  FALSE, "all",  2, "tiny", "mid"),
-  E(<<E2, I2>>, 0, 0, TRUE,  FALSE, FALSE, "alt",  2, "two",  "mid"),
+  E(<<I2, E1>>, 1, 1, FALSE, TRUE,  FALSE, "all",  2, "tiny", "tiny"),
+  E(<<E2, I2>>, 0, 0, TRUE,  FALSE, FALSE, "alt",  2, "two",  "tiny"),
   \* two constraints, 3 points, small alphabets
   E(<<I1, E1>>, 1, 1, FALSE, TRUE,  FALSE, "alt",  3, "two",  "three"),
-  E(<<E1, I1>>, 0, 0, TRUE,  FALSE, FALSE, "all",  3, "num",  "tiny"),
-  E(<<I2, I1>>, 0, 1, FALSE, TRUE,  TRUE,  "none", 3, "two",  "three")
+  E(<<E1, I1>>, 0, 0, TRUE,  FALSE, FALSE, "all",  3, "num",  "three"),
+  E(<<I2, I1>>, 0, 1, FALSE, TRUE,  TRUE,  "none", 2, "four", "tiny")
 >>
 
 ThoroughFamily == QuickFamily \o <<
@@ -317,7 +317,6 @@ ThoroughFamily == QuickFamily \o <<
 >>
 
 Family == IF Tier = "quick" THEN QuickFamily ELSE ThoroughFamily
-MyEntries == {Family[i] : i \in {j \in 1..Len(Family) : j % NShards = Shard}}
 
 CSeqs(e) == LET c == e.c IN
     IF NCons(c) = 0 THEN {<<>>}
@@ -340,9 +339,12 @@ WithGrads(c, hr) ==
            [f |-> hr[i].f, c |-> hr[i].c,
             g |-> Tup([k \in 1..NCons(c) |-> GradId(c, i, k, hr[i])], NCons(c))]], Len(hr))
 
-Instances(e) == {[c |-> e.c, h |-> WithGrads(e.c, hr)] : hr \in UNION {SeqsOfLen(RawPoints(e), m) : m \in 1..e.n}}
+Instances(e, m) == {[c |-> e.c, h |-> WithGrads(e.c, hr)] : hr \in SeqsOfLen(RawPoints(e), m)}
 
-Init == \E e \in MyEntries : inst \in Instances(e)
+\* printed at start-up: per entry the number of distinct points and the maximal history length
+ASSUME PrintT(<<"SIZES", [i \in 1..Len(Family) |-> <<Cardinality(RawPoints(Family[i])), Family[i].n>>]>>)
+
+Init == \E u \in Units : inst \in Instances(Family[u \div 10], u % 10)
 Next == UNCHANGED inst
 Spec == Init /\ [][Next]_vars
 
@@ -354,28 +356,26 @@ H == inst.h
 
 \* the design-level theorem for the algorithm with both D8 rules repaired
 Theorem == Acceptable(C, H, Select(C, H, FALSE, FALSE))
-\* the diagnostic agrees with the relation on the reports of every rule variant
-VerdictIsRelation == \A brk \in BOOLEAN : \A emp \in BOOLEAN :
-    Acceptable(C, H, Select(C, H, brk, emp)) <=> (Verdict(C, H, Select(C, H, brk, emp)) = "ok")
-\* whatever the rules, the transcription obeys the relation outside the two classes of D8
-TheoremOutsideD8 == \A brk \in BOOLEAN : \A emp \in BOOLEAN :
-    \/ Acceptable(C, H, Select(C, H, brk, emp))
-    \/ (emp /\ HistoryClass(C, H) = "feasible_without_usable_objective")
-    \/ (brk /\ HistoryClass(C, H) = "infeasible_partially_evaluated"
-            /\ Why(C, H, Select(C, H, brk, emp)) = "minimal_only_if_recorded_violation_after_missing_constraint_is_ignored")
+\* the algorithm as coded obeys the relation outside the two classes of D8, and the diagnostic
+\* agrees with the relation
+CodedOutsideD8 ==
+    LET r == Select(C, H, TRUE, TRUE)
+        v == Verdict(C, H, r)
+    IN /\ Acceptable(C, H, r) <=> (v = "ok")
+       /\ \/ v = "ok"
+          \/ HistoryClass(C, H) = "feasible_without_usable_objective" /\ v = "RecordedPoint"
+          \/ /\ HistoryClass(C, H) = "infeasible_partially_evaluated"
+             /\ Why(C, H, r, v) = "minimal_only_if_recorded_violation_after_missing_constraint_is_ignored"
 \* last_point obeys "the values of that very point"
 LastIsAPoint == LastVerdict(C, H, LastReport(C, H)) = "ok"
 
 -----------------------------------------------------------------------------
-(* Dump of the instances (with what the specification computed) for the replay *)
+(* Dump of each instance, with what the specification computed, for the replay *)
 
 Variant(c, h, brk, emp) == LET r == Select(c, h, brk, emp)
-                           IN [r |-> r, v |-> Verdict(c, h, r), why |-> Why(c, h, r)]
-Case(i) == [c |-> i.c, h |-> i.h, cls |-> HistoryClass(i.c, i.h),
-            feas |-> FeasIdx(i.c, i.h),
-            coded |-> Variant(i.c, i.h, TRUE, TRUE),
-            nobrk |-> Variant(i.c, i.h, FALSE, TRUE),
-            noemp |-> Variant(i.c, i.h, TRUE, FALSE),
-            fixed |-> Variant(i.c, i.h, FALSE, FALSE)]
-Dump == JsonSerialize(IOEnv.OUT_FILE, [k \in {"cases"} |-> {Case(i) : i \in UNION {Instances(e) : e \in MyEntries}}])
+                               v == Verdict(c, h, r)
+                           IN [r |-> r, v |-> v, why |-> Why(c, h, r, v)]
+Case == [c |-> C, h |-> H, cls |-> HistoryClass(C, H),
+         coded |-> Variant(C, H, TRUE, TRUE), fixed |-> Variant(C, H, FALSE, FALSE)]
+Emit == PrintT(ToJson(Case))
 ================================================================================
